@@ -233,7 +233,7 @@ package mcp
 //@ func mcpHandler.dispatchRequest
 //@   counted dispatches
 //@   modifies *
-//@   ensures[C03,C14 method-not-served-is-method-not-found] !served(old(req.Method)) ==> isErr(ret, ErrCodeMethodNotFound, old(req.ID)) && ret1 == nil
+//@   ensures[C03,C14,C06 method-not-served-is-method-not-found] !served(old(req.Method)) ==> isErr(ret, ErrCodeMethodNotFound, old(req.ID)) && ret1 == nil
 //@
 //@ func mcpHandler.handleRequest$1
 //@   ensures[C15 core-dispatches-exactly-once] dispatches == old(dispatches) + 1
@@ -590,12 +590,12 @@ package mcp
 //@ func toolManager.handleCallTool
 //@   modifies *, toolcalls
 //@   ensures[C03 never-a-go-error] ret1 == nil
-//@   ensures[C03,C14 missing-or-mistyped-params-or-name-are-invalid-params] !old(callNameOK(req)) ==> isErr(ret, ErrCodeInvalidParams, old(req.ID)) && toolcalls == old(toolcalls)
+//@   ensures[C03,C14,C06 missing-or-mistyped-params-or-name-are-invalid-params] !old(callNameOK(req)) ==> isErr(ret, ErrCodeInvalidParams, old(req.ID)) && toolcalls == old(toolcalls)
 //@   ensures[C01,C03,C12 unknown-tool-is-method-not-found-and-nothing-runs] old(callNameOK(req)) && !atlock(req.Params.(map[string]interface{})["name"].(string) in m.tools) ==> isErr(ret, ErrCodeMethodNotFound, old(req.ID)) && toolcalls == old(toolcalls)
-//@   ensures[C03,C14 arguments-that-are-not-an-object-are-invalid-params] old(callNameOK(req)) && atlock(req.Params.(map[string]interface{})["name"].(string) in m.tools) && !old(callArgsOK(req)) ==> isErr(ret, ErrCodeInvalidParams, old(req.ID)) && toolcalls == old(toolcalls)
+//@   ensures[C03,C14,C06 arguments-that-are-not-an-object-are-invalid-params] old(callNameOK(req)) && atlock(req.Params.(map[string]interface{})["name"].(string) in m.tools) && !old(callArgsOK(req)) ==> isErr(ret, ErrCodeInvalidParams, old(req.ID)) && toolcalls == old(toolcalls)
 //@   ensures[C01,C12 handler-runs-exactly-once-for-a-registered-tool] old(callNameOK(req)) && old(callArgsOK(req)) && atlock(req.Params.(map[string]interface{})["name"].(string) in m.tools) ==> toolcalls == old(toolcalls) + 1
 //@ func toolManager.handleListTools
-//@   ensures[C03 tools-list-result-has-an-array] ret1 == nil && istype(ret, ListToolsResult) && ret.(ListToolsResult).Tools != nil
+//@   ensures[C03,C14 tools-list-result-has-an-array] ret1 == nil && istype(ret, ListToolsResult) && ret.(ListToolsResult).Tools != nil
 
 // The table of pending server-issued requests changes only through the response manager's own
 // operations; a stream handler or a session's teardown has no business in it (C05, C11).
@@ -1260,9 +1260,9 @@ package mcp
 //@
 // C03 — list results carry an array (never null) for every list method
 //@ func resourceManager.handleListResources
-//@   ensures[C03 resources-list-result-has-an-array] ret1 == nil && istype(ret, ListResourcesResult) && ret.(ListResourcesResult).Resources != nil
+//@   ensures[C03,C14 resources-list-result-has-an-array] ret1 == nil && istype(ret, ListResourcesResult) && ret.(ListResourcesResult).Resources != nil
 //@ func promptManager.handleListPrompts
-//@   ensures[C03 prompts-list-result-has-an-array] ret1 == nil && istype(ret, *ListPromptsResult) && ret.(*ListPromptsResult) != nil && ret.(*ListPromptsResult).Prompts != nil
+//@   ensures[C03,C14 prompts-list-result-has-an-array] ret1 == nil && istype(ret, *ListPromptsResult) && ret.(*ListPromptsResult) != nil && ret.(*ListPromptsResult).Prompts != nil
 //@
 // C14 — every server kind advertises capabilities from the very managers that serve its requests
 //@ func NewStdioServer
@@ -1377,7 +1377,7 @@ package mcp
 //@   records lastnerr ret0
 //@   modifies *, nhandles, lastnerr
 //@ func httpServerHandler.handlePostNotification
-//@   ensures[C03 a-failed-notification-is-answered-with-an-error-status] nhandles == old(nhandles) + 1 && !isnil(lastnerr) ==> status(w) >= 400
+//@   ensures[C03,C06 a-failed-notification-is-answered-with-an-error-status] nhandles == old(nhandles) + 1 && !isnil(lastnerr) ==> status(w) >= 400
 //@
 // C05 — "reached" means written: a send that reports success has written one event to a stream
 //@ ghost stable ssewrites int
@@ -1532,28 +1532,28 @@ package mcp
 //@ func promptManager.handleGetPrompt
 //@   modifies *, promptcalls
 //@   ensures[C03 never-a-go-error] ret1 == nil
-//@   ensures[C03,C14 missing-or-mistyped-params-or-name-are-invalid-params] !old(strParamOK(req, "name")) ==> isErr(ret, ErrCodeInvalidParams, old(req.ID)) && promptcalls == old(promptcalls)
-//@   ensures[C03,C12 unknown-prompt-is-method-not-found-and-nothing-runs] old(strParamOK(req, "name")) && !atlock(req.Params.(map[string]interface{})["name"].(string) in m.prompts) ==> isErr(ret, ErrCodeMethodNotFound, old(req.ID)) && promptcalls == old(promptcalls)
+//@   ensures[C03,C14,C06 missing-or-mistyped-params-or-name-are-invalid-params] !old(strParamOK(req, "name")) ==> isErr(ret, ErrCodeInvalidParams, old(req.ID)) && promptcalls == old(promptcalls)
+//@   ensures[C03,C12,C06,C14 unknown-prompt-is-method-not-found-and-nothing-runs] old(strParamOK(req, "name")) && !atlock(req.Params.(map[string]interface{})["name"].(string) in m.prompts) ==> isErr(ret, ErrCodeMethodNotFound, old(req.ID)) && promptcalls == old(promptcalls)
 //@   ensures[C01,C03 the-prompt-handler-runs-at-most-once] promptcalls <= old(promptcalls) + 1
 //@
 //@ func resourceManager.handleReadResource
 //@   modifies *, resourcecalls
 //@   ensures[C03 never-a-go-error] ret1 == nil
-//@   ensures[C03,C14 missing-or-mistyped-params-or-uri-are-invalid-params] !old(strParamOK(req, "uri")) ==> isErr(ret, ErrCodeInvalidParams, old(req.ID)) && resourcecalls == old(resourcecalls)
-//@   ensures[C03,C12 unknown-resource-is-method-not-found-and-nothing-runs] old(strParamOK(req, "uri")) && !atlock(req.Params.(map[string]interface{})["uri"].(string) in m.resources) ==> isErr(ret, ErrCodeMethodNotFound, old(req.ID)) && resourcecalls == old(resourcecalls)
+//@   ensures[C03,C14,C06 missing-or-mistyped-params-or-uri-are-invalid-params] !old(strParamOK(req, "uri")) ==> isErr(ret, ErrCodeInvalidParams, old(req.ID)) && resourcecalls == old(resourcecalls)
+//@   ensures[C03,C12,C06,C14 unknown-resource-is-method-not-found-and-nothing-runs] old(strParamOK(req, "uri")) && !atlock(req.Params.(map[string]interface{})["uri"].(string) in m.resources) ==> isErr(ret, ErrCodeMethodNotFound, old(req.ID)) && resourcecalls == old(resourcecalls)
 //@   ensures[C01,C03 the-resource-handler-runs-exactly-once-for-a-registered-resource] old(strParamOK(req, "uri")) && atlock(req.Params.(map[string]interface{})["uri"].(string) in m.resources) && atlock(m.resources[req.Params.(map[string]interface{})["uri"].(string)]) != nil ==> resourcecalls == old(resourcecalls) + 1
 //@
 //@ func resourceManager.handleSubscribe
 //@   ensures[C03 never-a-go-error] ret1 == nil
-//@   ensures[C03 missing-or-mistyped-params-or-uri-are-invalid-params] !old(strParamOK(req, "uri")) ==> isErr(ret, ErrCodeInvalidParams, old(req.ID))
+//@   ensures[C03,C06 missing-or-mistyped-params-or-uri-are-invalid-params] !old(strParamOK(req, "uri")) ==> isErr(ret, ErrCodeInvalidParams, old(req.ID))
 //@
 //@ func resourceManager.handleUnsubscribe
 //@   ensures[C03 never-a-go-error] ret1 == nil
-//@   ensures[C03 missing-or-mistyped-params-or-uri-are-invalid-params] !old(strParamOK(req, "uri")) ==> isErr(ret, ErrCodeInvalidParams, old(req.ID))
+//@   ensures[C03,C06 missing-or-mistyped-params-or-uri-are-invalid-params] !old(strParamOK(req, "uri")) ==> isErr(ret, ErrCodeInvalidParams, old(req.ID))
 //@
 //@ func promptManager.handleCompletionComplete
 //@   ensures[C03 never-a-go-error] ret1 == nil
-//@   ensures[C03 params-that-are-not-an-object-are-invalid-params] !old(istype(req.Params, map[string]interface{})) ==> isErr(ret, ErrCodeInvalidParams, old(req.ID))
+//@   ensures[C03,C06 params-that-are-not-an-object-are-invalid-params] !old(istype(req.Params, map[string]interface{})) ==> isErr(ret, ErrCodeInvalidParams, old(req.ID))
 //@   ensures[C03 an-answer-is-always-an-error-object-with-the-requests-id] istype(ret, *JSONRPCError) && ret.(*JSONRPCError) != nil && ret.(*JSONRPCError).ID == old(req.ID)
 //@
 // ---- C13 — prompts/list and resources/list evaluate their filter with this request's context, on a slice
@@ -1594,13 +1594,13 @@ package mcp
 // a missing / unknown session with an error status, an undecodable body with a JSON-RPC error body
 //@ func SSEServer.handleSessionError
 //@   modifies *, status(w), errlogs
-//@   ensures[C03 a-session-error-is-an-error-status] (old(status(w)) == 0 ==> status(w) == 400 || status(w) == 404 || status(w) == 500) && status(w) != 0
+//@   ensures[C03,C06 a-session-error-is-an-error-status] (old(status(w)) == 0 ==> status(w) == 400 || status(w) == 404 || status(w) == 500) && status(w) != 0
 //@ func SSEServer.writeJSONRPCError
 //@   modifies *, status(w), hval, errlogs
 //@   ensures[C03 the-error-body-is-written] status(w) != 0
 //@ func SSEServer.handleMessage
 //@   ensures[C03 every-posted-message-gets-a-status] status(w) != 0
-//@   ensures[C03 only-post-is-allowed-on-the-message-endpoint] old(status(w)) == 0 && old(r.Method) != "POST" ==> status(w) == 405
+//@   ensures[C03,C06 only-post-is-allowed-on-the-message-endpoint] old(status(w)) == 0 && old(r.Method) != "POST" ==> status(w) == 405
 //@
 // ---- seventh measurement round (ids -8): general facts behind the misses ----
 // C01 / C02 — every frame and every listed item is decoded into storage of its own (a variable hoisted out of
@@ -1829,7 +1829,7 @@ package mcp
 //@
 // C03 — legacy SSE: a path that is neither endpoint is answered 404 (the status is fixed before the body is written)
 //@ func SSEServer.ServeHTTP
-//@   before call Fprintf#1 assert[C03 a-path-that-is-neither-endpoint-is-answered-404] old(status(w)) == 0 ==> status(w) == 404
+//@   before call Fprintf#1 assert[C03,C06 a-path-that-is-neither-endpoint-is-answered-404] old(status(w)) == 0 ==> status(w) == 404
 //@
 // C17 / C13 / C20 — package-level defaults and tables are never written after package initialisation
 //@ sweepscope[C17] kinds=globalsro files=retry.go,internal/retry/retry.go
